@@ -52,6 +52,31 @@ func bubble(t *testing.T, f func()) {
 	}
 }
 
+
+// bubbleFail carries a verdict out of a synctest bubble: rapid's Fatalf must run on rapid's own
+// goroutine, outside the bubble (inside it, shrinking does not reproduce reliably).
+type bubbleFail string
+
+func bubbleCheck(t *testing.T, rt *rapid.T, f func(fatalf func(string, ...any))) {
+	var msg string
+	failed := false
+	bubble(t, func() {
+		defer func() {
+			if r := recover(); r != nil {
+				if bf, ok := r.(bubbleFail); ok {
+					msg, failed = string(bf), true
+					return
+				}
+				panic(r)
+			}
+		}()
+		f(func(format string, a ...any) { panic(bubbleFail(fmt.Sprintf(format, a...))) })
+	})
+	if failed {
+		rt.Fatalf("%s", msg)
+	}
+}
+
 var c34Seq atomic.Int64
 
 type c34NoFetch struct{}
@@ -81,7 +106,7 @@ func TestC34(t *testing.T) {
 	rec.Require(req...)
 	rapid.Check(t, func(rt *rapid.T) {
 		if rapid.Bool().Draw(rt, "partB") {
-			bubble(t, func() { c34Provider(rt, rec) })
+			bubbleCheck(t, rt, func(fatalf func(string, ...any)) { c34Provider(rt, rec, fatalf) })
 			return
 		}
 		T := time.Now().Truncate(time.Second)
@@ -179,7 +204,7 @@ func TestC34(t *testing.T) {
 	})
 }
 
-func c34Provider(rt *rapid.T, rec *evid.Rec) {
+func c34Provider(rt *rapid.T, rec *evid.Rec, fatalf func(string, ...any)) {
 	ctx := context.Background()
 	now0 := time.Now().Truncate(time.Second)
 	time.Sleep(100 * time.Millisecond)
@@ -187,7 +212,7 @@ func c34Provider(rt *rapid.T, rec *evid.Rec) {
 	labels := map[string]bool{}
 	must := func(c *pki.Cert, err error) *pki.Cert {
 		if err != nil {
-			rt.Fatalf("harness: %v", err)
+			fatalf("harness: %v", err)
 		}
 		return c
 	}
@@ -214,7 +239,7 @@ func c34Provider(rt *rapid.T, rec *evid.Rec) {
 		}
 		st, err := pki.SignTRC(t, []*pki.Cert{sens, reg})
 		if err != nil {
-			rt.Fatalf("harness: TRC %d: %v", serial, err)
+			fatalf("harness: TRC %d: %v", serial, err)
 		}
 		return st
 	}
@@ -222,11 +247,11 @@ func c34Provider(rt *rapid.T, rec *evid.Rec) {
 	trc2 := mkTRC(2, []string{"B", "C"}, trc2Start, now0.Add(60*day))
 	db, err := trustsql.New(fmt.Sprintf("c34_%d", c34Seq.Add(1)), &sdb.SqliteConfig{InMemory: true})
 	if err != nil {
-		rt.Fatalf("harness: %v", err)
+		fatalf("harness: %v", err)
 	}
 	defer db.Close()
 	if _, err := db.InsertTRC(ctx, trc1); err != nil {
-		rt.Fatalf("harness: %v", err)
+		fatalf("harness: %v", err)
 	}
 	ia := addr.MustParseIA("1-ff00:0:111")
 	key := pki.Key(elliptic.P256(), 4530)
@@ -244,7 +269,7 @@ func c34Provider(rt *rapid.T, rec *evid.Rec) {
 	chains = append(chains, ch{"short", "B", []*x509.Certificate{short.X, cas["B"].X}})
 	for _, c := range chains {
 		if _, err := db.InsertChain(ctx, c.chain); err != nil {
-			rt.Fatalf("harness: %v", err)
+			fatalf("harness: %v", err)
 		}
 	}
 	prov := trust.FetchingProvider{DB: db, Recurser: c34Allow{}, Fetcher: c34NoFetch{}}
@@ -257,7 +282,7 @@ func c34Provider(rt *rapid.T, rec *evid.Rec) {
 		case "insert_trc2":
 			if !trc2In {
 				if _, err := db.InsertTRC(ctx, trc2); err != nil {
-					rt.Fatalf("harness: %v", err)
+					fatalf("harness: %v", err)
 				}
 				trc2In = true
 				history = append(history, fmt.Sprintf("insert TRC2 at day %.1f", time.Since(now0).Hours()/24))
@@ -345,14 +370,14 @@ func c34Provider(rt *rapid.T, rec *evid.Rec) {
 			desc := fmt.Sprintf("query at day %.2f (TRC2 from day %.0f, grace %dd, inserted %v) filter=%v after %v", now.Sub(now0).Hours()/24, trc2Start.Sub(now0).Hours()/24, graceDays, trc2In, !q.Validity.IsZero(), history)
 			if len(active) == 0 {
 				if len(got) != 0 {
-					rt.Fatalf("chains %v handed out although the latest TRC is not valid at that time: %s", gotN, desc)
+					fatalf("chains %v handed out although the latest TRC is not valid at that time: %s", gotN, desc)
 				}
 			} else {
 				if err != nil {
-					rt.Fatalf("GetChains failed: %v (%s)", err, desc)
+					fatalf("GetChains failed: %v (%s)", err, desc)
 				}
 				if fmt.Sprint(gotN) != fmt.Sprint(want) {
-					rt.Fatalf("chains handed out: %v, chains verifiable against the active TRCs at that time: %v (%s)", gotN, want, desc)
+					fatalf("chains handed out: %v, chains verifiable against the active TRCs at that time: %v (%s)", gotN, want, desc)
 				}
 			}
 			history = append(history, fmt.Sprintf("query day %.1f -> %v", now.Sub(now0).Hours()/24, gotN))
